@@ -122,9 +122,14 @@ def handler(c):
         b = run_one(c, seed, 98765)
         other = run_one(c, seed_value(c["other_seed"]), 1)
         plain = run_one(c, int(seed), 5) if isinstance(c["seed"], dict) else None
+        # an UNSEEDED run records the seed it drew; a second simulation built with that recorded seed is "the same seed" and must reproduce it
+        un = run_one(c, None, 3)
+        again = run_one(c, un["seed_attr"], 4)
+        unseeded = {"recorded_seed": un["seed_attr"], "same": un["steps"] == again["steps"] and un["log"] == again["log"],
+                    "first_diverging_step": next((i for i, (x, y) in enumerate(zip(un["steps"], again["steps"])) if x != y), None)}
     finally:
         disarm()
-    return {"a": a, "b": b, "other": other, "plain_int": plain, "trips": TRIPS[:20], "ntrips": len(TRIPS),
+    return {"unseeded": unseeded, "a": a, "b": b, "other": other, "plain_int": plain, "trips": TRIPS[:20], "ntrips": len(TRIPS),
             "pcg64_state": [int(ref["state"]["state"]), int(ref["state"]["inc"])]}
 
 
